@@ -61,4 +61,28 @@ def effectiveMode (ps : List PA) (root : String) (w : Workload) (port : Nat) : M
     | none => wlModeSpec ps root w
     | some m => inherit m (wlModeSpec ps root w)
 
+/-! ## Which labels a workload has (ambient workload kinds)
+
+PeerAuthentication API: "selector: the selector determines the workloads to apply the PeerAuthentication on",
+matched against the workload's labels.
+* Pod: `metadata.labels`.
+* ServiceEntry with inline `endpoints`: each endpoint is a WorkloadEntry value, "labels: one or more labels
+  associated with the endpoint" - the endpoint's own labels; the labels of the ServiceEntry RESOURCE describe the
+  resource, not its endpoints.
+* WorkloadEntry resource: `spec.labels`, to which Istio adds the resource's `metadata.labels` (a key present in both
+  takes the metadata value) - the documented behaviour of the sidecar registry (`ConvertWorkloadEntry`), so that a
+  WorkloadEntry is selected the same way by every component. -/
+
+inductive WKind
+  | pod | workloadEntry | serviceEntryEndpoint
+  deriving DecidableEq, Repr
+
+/-- The labels the workload has.  `labels`: pod labels / WorkloadEntry `spec.labels` / inline endpoint labels;
+    `mlabels`: the `metadata.labels` of the WorkloadEntry or ServiceEntry resource. -/
+def ownLabels (k : WKind) (labels mlabels : Labels) : Labels :=
+  match k with
+  | .pod => labels
+  | .workloadEntry => mlabels ++ labels.filter (fun kv => !(mlabels.any (fun m => m.1 == kv.1)))
+  | .serviceEntryEndpoint => labels
+
 end IstioModel.C10
